@@ -146,6 +146,39 @@ func generate(rng *vkit.Rng, budget int) []genLoop {
 			}
 			add("sliver-ulps", v, true, false)
 		}
+		// zero-area slivers (A, point of the arc AB, B) with semiperimeter below 3e-4 (l'Huilier branch of
+		// PointArea, where the product of the four tangents may round to a tiny negative number), and small
+		// quadrilaterals with a redundant midpoint vertex; every start vertex via the rotations below
+		for k := 0; k < 8; k++ {
+			a := randPoint(rng)
+			d := []float64{1e-7, 1e-6, 1e-5, 1e-4, 2.5e-4}[rng.Intn(5)]
+			b := s2.InterpolateAtDistance(s1.Angle(d), a, randPoint(rng))
+			t := 0.5
+			if rng.Bool() {
+				t = rng.Range(0.05, 0.95)
+			}
+			m := s2.Interpolate(t, a, b)
+			if rng.Intn(3) == 0 {
+				m = ulpPoint(m, rng.Intn(3)-1, rng.Intn(3)-1, rng.Intn(3)-1)
+			}
+			v := []s2.Point{a, m, b}
+			if rng.Bool() {
+				v = rev(v)
+			}
+			add("sliver A,mid,B small", v, true, false)
+		}
+		for k := 0; k < 4; k++ {
+			q := s2.RegularLoop(randPoint(rng), s1.Angle([]float64{1e-6, 1e-5, 1e-4, 2e-4}[k]), 4).Vertices()
+			e := rng.Intn(4)
+			var v []s2.Point
+			for i := 0; i < 4; i++ {
+				v = append(v, q[i])
+				if i == e {
+					v = append(v, s2.Interpolate(0.5, q[i], q[(i+1)%4]))
+				}
+			}
+			add("small quad + redundant midpoint", v, false, true)
+		}
 		// exactly collinear vertices on a coordinate great circle (determinant exactly zero)
 		for k := 0; k < 4; k++ {
 			t0, t1, t2 := rng.Range(0, 0.5), rng.Range(0.6, 1.2), rng.Range(1.3, 2)
@@ -732,6 +765,7 @@ func (st *state) polygons(budget int) {
 			continue
 		}
 		c.Class(fmt.Sprintf("polygon %d loops", p.NumLoops()))
+		st.checkPolygonGeo(fmt.Sprintf("nested regular loops k=%d", k), p)
 		c.Eval(fmt.Sprintf("poly %d %x", k, math.Float64bits(ctr.X)), true)
 		tab := newTab()
 		var lts []string
@@ -785,7 +819,48 @@ func (st *state) polygons(budget int) {
 	}
 }
 
+// san replaces non-finite floats (which encoding/json rejects) by strings, recursively.
+func san(v interface{}) interface{} {
+	switch x := v.(type) {
+	case float64:
+		if math.IsNaN(x) || math.IsInf(x, 0) {
+			return fmt.Sprint(x)
+		}
+		return x
+	case []float64:
+		out := make([]interface{}, len(x))
+		for i, e := range x {
+			out[i] = san(e)
+		}
+		return out
+	case []interface{}:
+		out := make([]interface{}, len(x))
+		for i, e := range x {
+			out[i] = san(e)
+		}
+		return out
+	case map[string]interface{}:
+		out := map[string]interface{}{}
+		for k, e := range x {
+			out[k] = san(e)
+		}
+		return out
+	}
+	return v
+}
+
 func run(c *vkit.Collector, rng *vkit.Rng, budget int) {
+	defer func() {
+		for i := range c.Violations {
+			c.Violations[i].Replay = san(c.Violations[i].Replay)
+		}
+		for i := range c.Samples {
+			c.Samples[i] = san(c.Samples[i])
+		}
+		for k, e := range c.Extra {
+			c.Extra[k] = san(e)
+		}
+	}()
 	st := &state{c: c, rng: rng, fanLoopsWith: map[string]int{}, areaDecisions: map[string]int{}}
 	// empty and full loops
 	for _, sp := range []struct {
@@ -831,6 +906,7 @@ func run(c *vkit.Collector, rng *vkit.Rng, budget int) {
 	}
 	st.triangles(budget)
 	st.polygons(budget)
+	st.reusedPolygons(budget)
 	st.runOracle()
 	c.Extra["max |A+A'-4pi| / tol"] = st.maxSumErr
 	c.Extra["max |A-A_rot| / tol"] = st.maxRotErr
